@@ -21,6 +21,10 @@ class CachedDataset(Dataset):
     def __getattr__(self, item):
         if item == "dataset":
             return getattr(super(), item)
+        if item == "__getitems__":
+            # don't forward the batched access of the wrapped dataset (e.g. torch Subset): a DataLoader would call it
+            # instead of __getitem__ and bypass both the cache and the transform
+            return None
         return getattr(self.dataset, item)
 
     def _cached_getitem(self, index):
